@@ -775,9 +775,10 @@ fn msg_class(msg: &str) -> String {
     else if m.contains("wasm trap: wasm `unreachable`") { "wasm-trap-unreachable".into() }
     else if m.contains("wasm trap") { "wasm-trap-other".into() }
     else if m.contains("called `option::unwrap()` on a `none`") { "unwrap-None".into() }
+    else if m.contains("slice index starts at") { "slice-index-start-after-end".into() }
     else if m.contains("index out of bounds") || m.contains("out of range for slice") { "index-out-of-bounds".into() }
     else if m.contains("unreachable") { "unreachable".into() }
-    else { msg.chars().filter(|c| c.is_ascii_alphanumeric() || *c == ' ').take(48).collect::<String>().trim().replace(' ', "-") }
+    else { msg.chars().filter(|c| c.is_ascii_alphabetic() || *c == ' ').take(48).collect::<String>().split_whitespace().collect::<Vec<_>>().join("-") }
 }
 
 /// specific fingerprint of a non-Ok outcome
